@@ -25,6 +25,8 @@ claimed = {
          "Source interface contract assumed; substring search treated through regexp (assumed total, no match semantics); incremental search (Ctrl-R/Ctrl-S) not covered; search text cut by rune position on a byte string noted"),
  "C19": ("DESIGN.md §4 C19", "Encontrol/Decontrol/Enmeta/Demeta/IsControl/IsMeta proved equal to integer spec functions (bit masks translated exactly) with their round-trip lemmas; escape proved to append escr1(c) for every single ASCII rune and unescapeRunes/Unescape to produce decr1(t) for every single token (real loops, real switch); lemma decr1(escr1(c)) == [c] for every rune of the domain, both the bind and the macro spelling",
          "per rune / per token only: the induction over sequences (unescape of a concatenation) and runes >= 0x80 inside escape's range-over-string are not proved; \\x and octal tokens excluded (non-constant bit-or abstracted); dump commands' printing assumed transparent; unicode.IsPrint/ToUpper assumed on ASCII; 1 known finding (0x80-0x9F, 0xFF)"),
+ "C03": ("DESIGN.md §4 C03", "matchBind proved against quantified spec functions over the whole bind table in any map order (exact match sound and complete, prefixed non-empty iff the keys are a proper prefix of some converted sequence; in-place sort modelled as a skolemised permutation); dispatchKeys proved by loop invariant: keys consumed in order, prefix waits, an exact match runs its own binding, the key that rules out longer bindings falls back on the shorter binding whose keys are reported as matched, nothing runs on an empty stack; MatchMain/MatchLocal key accounting: the bytes removed from the stack are exactly the converted sequence of the binding returned; run feeds the unescaped macro body and the pop order puts macro keys first",
+         "typed keys only in the dispatch statements (no macro keys pending, no binding kept from an earlier prefix), plain bind tables (isearch / non-incremental search restrictions assumed safe), vi ESC special-casing excluded (emacs main keymaps); ConvertMeta named by an uninterpreted function (pure, frame and termination proved); that Readline enters run once per resolved bind is A-LOOP"),
 }
 not_applicable = {
  "C04": "needs a VT100 cell-grid interpreter of the emitted byte stream as oracle; contracts on the repository's functions cannot state what a terminal shows (DESIGN.md §4 C04)",
@@ -33,7 +35,6 @@ not_applicable = {
 pending = {
  "C01": "not yet claimed: contracts for the command layer are still being written (DESIGN.md §7 build order)",
  "C02": "not yet claimed: needs the dispatcher contracts (DESIGN.md §7 step 3)",
- "C03": "not yet claimed: needs the dispatcher contracts (DESIGN.md §7 step 3)",
  "C05": "not yet claimed: needs the ghost input stream layer (DESIGN.md §7 step 3)",
  "C10": "not yet claimed: assumed-library layer not reached yet (DESIGN.md §4 C10)",
  "C11": "not yet claimed: ghost termios / defers on the panic edge not yet built",
